@@ -649,6 +649,7 @@ def write_evidence(prop: Property, tier, seed, rep: ProofReport, runner: Optiona
             "traces_validated_against_impl": runner.evaluations,
             "families_stopped_on_budget": runner.timed_out_families,
             "known_findings_reproduced": known,
+            "corpus_cases_replayed_first": getattr(runner, "corpus_cases", 0),
         })
     else:
         cov.update({"evaluations": 0, "distinct_nontrivial": 0, "samples": [{"note": "correspondence not run"}]})
@@ -732,9 +733,38 @@ def _main(prop, tier, seed, budget, replay, t0):
     gen_tier = "thorough" if proof_broken and tier == "quick" else tier
     runner.tier = gen_tier
     rng_master = random.Random(seed)
-    # first: replay the corpus of committed known-finding replays and past failures
-    n_f = len(prop.families)
-    t_start = time.time()
+    # first: replay the committed corpus — the replay case of every listed finding (known: must still
+    # reproduce to be printed; fixed: must NOT fail any more) and corpus/Cxx/*.json (past failures,
+    # confirmed seeded changes' minimal inputs)
+    import glob as _glob
+    corpus = []
+    for f in findings:
+        if f.get("replay_case") is not None and f.get("replay_family") in fams:
+            corpus.append((f["replay_family"], f["replay_case"], f))
+    for path in sorted(_glob.glob(os.path.join(VERIF, "corpus", prop.id, "*.json"))):
+        try:
+            body = json.load(open(path))
+            if body.get("family") in fams:
+                corpus.append((body["family"], body["case"], None))
+        except Exception:
+            pass
+    corpus_failed = 0
+    set_up = set()
+    for famname, case, finding in corpus:
+        fam = fams[famname]
+        if famname not in set_up:
+            fam.setup()
+            set_up.add(famname)
+        (c_, po, res), = runner.eval_batch(fam, [case])
+        fail = runner.classify(fam, c_, po, res)
+        runner.evaluations += 1
+        if fail is not None:
+            corpus_failed += 1
+            runner.failures.append(fail)
+        elif finding is not None and finding.get("status") == "known":
+            print("NOTE: known finding %s no longer reproduces on its recorded replay case" % finding.get("id"))
+    runner.corpus_cases = len(corpus)
+    runner.corpus_failed = corpus_failed
     for i, fam in enumerate(prop.families):
         share = getattr(fam, "budget_share", 1.0)
         total_share = sum(getattr(f, "budget_share", 1.0) for f in prop.families)
